@@ -149,7 +149,8 @@ func ParseOptions(rawData []byte) (Options, error) {
 			return nil, ErrLength
 		}
 
-		value := rawData[p : p+int(vlen)]
+		value := make([]byte, int(vlen))
+		copy(value, rawData[p:p+int(vlen)])
 		p += int(vlen)
 
 		ops[Tag(tag)] = Option{
